@@ -94,12 +94,22 @@ def _header_name_to_cgi(name):
     return 'HTTP_{0}'.format(name.upper().replace('-', '_'))
 
 
+def _header_text(value):
+    # The reply travels in one HTTP header line: a native string of latin-1
+    # characters without line breaks (PEP 3333). Replies built by the SMTP
+    # relays carry their command as bytes and may have several lines.
+    if isinstance(value, bytes):
+        value = value.decode('latin-1')
+    value = ' '.join(value.splitlines())
+    return value.encode('latin-1', 'replace').decode('latin-1')
+
+
 def _build_http_response(smtp_reply):
     code = smtp_reply.code
     headers = []
-    info = {'message': smtp_reply.message}
+    info = {'message': _header_text(smtp_reply.message or '')}
     if smtp_reply.command:
-        info['command'] = smtp_reply.command
+        info['command'] = _header_text(smtp_reply.command)
     Headers(headers).add_header('X-Smtp-Reply', code, **info)
     if code.startswith('2'):
         return WsgiResponse('204 No Content', headers)
